@@ -43,6 +43,11 @@ def gen(tier, seed):
     n_tag = 4 if tier == "quick" else 5
     for s in all_strings(TAG_CORE, n_tag):
         cases.append({"f": "strip_html", "s": s})
+    # every ASCII character on its own and between letters, through every filter (character sets are per character)
+    for cp in list(range(0, 128)) + [0x80, 0xa0, 0xff, 0x2028, 0xfffd, 0x10ffff]:
+        for s in (chr(cp), "a" + chr(cp) + "b"):
+            for f in FCT:
+                cases.append({"f": f, "s": s})
     nrand = 4000 if tier == "quick" else 80000
     frag_ent = ["&amp;", "&lt;", "&gt;", "&quot;", "&#39;", "&amp", "&lt;;", "&#39", "&quot", "&", "&&", "&#", "&#3", "é&", "&é"] + ENT
     frag_url = ["%20", "%2B", "%2b", "%C3%A9", "%C3", "%A9", "%F0%9F%98%80", "%ED%A0%80", "%C0%80", "%FF", "%2", "%", "%%", "%G1", "+"] + URL
